@@ -1,5 +1,5 @@
 """unit terms: the term classes of the DSL (term, char_term, string_term, typed_term, custom_term, regex_term): constructors
-(mem-initializer lists lowered by R17) and the one-line accessors the parser reads names, ids, precedences and associativities
+(mem-initializer lists lowered by R19) and the one-line accessors the parser reads names, ids, precedences and associativities
 through.  R9: DataSize / pattern_size / Pattern become ghost parameters; R18: utils::copy_array(dst, src, index_sequence<K>) is
 the abstract vx_copy_array(dst, src, K) (its pack-expansion body is pinned as a pattern fact)."""
 import os, sys, re
@@ -18,8 +18,8 @@ def F(name, header, csig, rules=(), scope=None, **kw):
 
 
 ASSOC = r'associativity a = associativity::no_assoc'
-BASE = Call(r'VX_INIT__term', 'term__ctor(&self->base, {args})', name='R17:base-class initializer term(..)')
-MEMB = Call(r'VX_INIT__(\w+)', 'self->{m1} = ({args})', min=0, name='R17:member initializer m(e)')
+BASE = Call(r'VX_INIT__term', 'term__ctor(&self->base, {args})', name='R19:base-class initializer term(..)')
+MEMB = Call(r'VX_INIT__(\w+)', 'self->{m1} = ({args})', min=0, name='R19:member initializer m(e)')
 SEQ = S(r'std::make_index_sequence<([^>]+)>\{\}', r'(\1)', name='R18:index_sequence<K> -> K')
 COPY = Call(r'utils::copy_array', 'vx_copy_array({args})', name='R18:copy_array')
 
@@ -74,7 +74,7 @@ F('custom_term__get_name', r'constexpr const char\* get_name\(\)', 'const char* 
 F('custom_term__get_id', r'constexpr const char\* get_id\(\)', 'const char* custom_term__get_id(const struct custom_term* self)', [S(r'\bget_name\(\)', 'custom_term__get_name(self)')], CU)
 F('custom_term__get_ftor', r'constexpr const ftor_type& get_ftor\(\)', 'const int* custom_term__get_ftor(const struct custom_term* self)', [S(r'return ftor;', 'return &self->ftor;', name='R5:reference result')], CU)
 # ---- regex_term<Pattern>
-DELEG = Call(r'VX_INIT__regex_term', 'regex_term__ctor(self, {args})', name='R17:delegating constructor')
+DELEG = Call(r'VX_INIT__regex_term', 'regex_term__ctor(self, {args})', name='R19:delegating constructor')
 F('regex_term__ctor', r'constexpr regex_term\(const char \*custom_name, int precedence = 0, ' + ASSOC + r'\)',
   'void regex_term__ctor(struct regex_term* self, const char* custom_name, int precedence, int a)',
   [BASE, MEMB, SEQ, COPY, S(r'\bPattern\b', 'P_Pattern', name='R9:Pattern'), S(r'\bpattern_size\b', 'P_PS', name='R9:pattern_size'), member('id', min=3), Bound(r'self->id', ['P_PS + 2'])], RT, ctor=True)
